@@ -317,6 +317,18 @@ def opWSolve (j : Json) : Json :=
       Json.mkObj [("solves", Json.arr outs.toArray)]
   | _, _ => errJson "parse"
 
+/-- op `pflatten`: the rename tables `flatten()` leaves on the leaf placements (depth first) and `top.solve(**kw)` after it -/
+def opPFlatten (j : Json) : Json :=
+  match (j.getObjVal? "tree").toOption >>= parsePTree, (j.getObjVal? "kw").toOption >>= parseKw with
+  | some t, some kw =>
+    let tabs := (PNet.flatLeaves none t).map fun tl => Json.arr (tl.1.map fun no => Json.arr #[Json.str no.1, Json.str no.2]).toArray
+    let base := [("tables", Json.arr tabs.toArray)]
+    match PNet.pflatSolve Solve.pySched kw t with
+    | .error e => Json.mkObj (base ++ [("err", Json.str (errName e))])
+    | .ok c => Json.mkObj (base ++ [("pins", toJson c.pins),
+        ("T", Json.arr (c.pins.map fun x => Json.arr (c.pins.map fun y => gratToJson (c.sem x y)).toArray).toArray)])
+  | _, _ => errJson "parse"
+
 /-- op `monsolve`: the monitor path of `Solver.solve` (`Monitor.solveMonitored` with the pin-count heuristic) -/
 def opMonSolve (j : Json) : Json :=
   match fromJson? (α := CaseJ) j with
@@ -357,6 +369,7 @@ def dispatch (j : Json) : Json :=
   | some "hflatten" => opHFlatten j
   | some "wsolve" => opWSolve j
   | some "phsolve" => opPHSolve j
+  | some "pflatten" => opPFlatten j
   | some "phsweep" => opPHSweep j
   | some "stack" => opStack j
   | some "rename" => opRename j
